@@ -89,6 +89,12 @@ func (k *Keeper) setOperatorConsKeyForChainID(
 			k.setOperatorPrevConsKeyForChainID(
 				ctx, opAccAddr, chainID, prevKey,
 			)
+		} else {
+			// the key being replaced was itself set after the first replacement of this
+			// epoch, so it never made it into a validator set and nobody is told about
+			// this replacement: release its reverse lookup now, or it is never pruned and
+			// the key can never be used again.
+			k.DeleteOperatorAddressForChainIDAndConsAddr(ctx, chainID, prevKey.ToConsAddr())
 		}
 	}
 	k.setOperatorConsKeyForChainIDUnchecked(ctx, opAccAddr, consAddr, chainID, bz)
